@@ -117,3 +117,24 @@ S(id="TOK.add", props=["C15", "C12"], spec="tok.spec.c", harness="h_tok_add", mo
 S(id="TOK.read", props=["C15"], spec="tok.spec.c", harness="h_read_toks", mode="U", loops=True, n_loops=1, enforce=["read_toks/read_toks_c"],
   replace=["tok_add/tok_add_use_c"], functions=["read_toks"],
   what="every non-negative code delivered by read_token is passed to tok_add unchanged; reading stops at the first negative code; the end marker with NULL attribute is appended last; read_token is not called again")
+
+# ---------------- C14 / C15 / C17: grammar object lifecycle ----------------
+S(id="G.create", props=["C14", "C15", "C17"], spec="gram.spec.c", harness="h_create", mode="L", canaries=2, enforce=["yaep_create_grammar/create_c"],
+  replace=["yaep_alloc_new/alloc_new_c", "yaep_alloc_seterr/alloc_seterr_c", "yaep_alloc_getuserptr/alloc_getuserptr_c", "yaep_malloc/malloc_first_c",
+           "yaep_alloc_del/alloc_del_c", "symb_init/symb_init_c", "term_set_init/term_set_init_c", "rule_init/rule_init_c", "yaep_free_grammar/free_use_c"],
+  functions=["yaep_create_grammar"],
+  what="phase A: NULL (allocator released) or a fresh undefined object with error state cleared and the documented defaults, current grammar switched to it; "
+       "exit assertions at every allocation site: never the default (process-terminating) handler, object unwindable (every storage pointer NULL or built)",
+  assumes=["A7: symb_init, term_set_init, rule_init return fresh storage (assumed contracts; their allocation sites carry the same exit assertion)"])
+S(id="G.create.unwind", props=["C17", "C14"], spec="gram.spec.c", harness="h_unwind_create", mode="L", enforce=["verif_unwind_create_grammar/unwind_create_c"],
+  replace=["yaep_free_grammar/free_use_c"], functions=["yaep_create_grammar (error branch, rule R3)"],
+  what="phase B: from any state satisfying the exit assertion the branch releases the half-built object once and returns NULL")
+S(id="G.free", props=["C14", "C17"], spec="gram.spec.c", harness="h_free", mode="L", canaries=2, enforce=["yaep_free_grammar/free_c"],
+  replace=["rule_fin/rule_fin_c", "term_set_fin/term_set_fin_c", "symb_fin/symb_fin_c", "yaep_free/free_obj_c", "yaep_alloc_del/alloc_del_c"],
+  functions=["yaep_free_grammar", "pl_fin"],
+  what="with ARBITRARY file-scope state (current grammar NULL or another object): the three storages, the object and its allocator are released exactly once each, "
+       "through this object's allocator, in an order that never uses the object after it is gone; grammar == NULL and no parser list afterwards")
+S(id="D.front", props=["C11", "C14", "C15"], spec="gram.spec.c", harness="h_parse_grammar", mode="L", canaries=2, enforce=["yaep_parse_grammar/parse_grammar_c"],
+  replace=["set_sgrammar/set_sgrammar_c", "yaep_read_grammar/read_grammar_use_c", "free_sgrammar/free_sgrammar_c"], functions=["yaep_parse_grammar"],
+  what="the argument is made the current grammar before the front end can fail (errors recorded in this object); a front-end failure returns its code; otherwise "
+       "exactly what yaep_read_grammar returned on the replayed records; the intermediate form is released exactly once on every path")
